@@ -23,8 +23,13 @@ fn registry() -> Vec<(&'static str, CheckFn, ReplayFn)> {
     vec![
         ("C01", |t| c01_c02::check(c01_c02::Which::C01, t), |v| c01_c02::replay(c01_c02::Which::C01, v)),
         ("C02", |t| c01_c02::check(c01_c02::Which::C02, t), |v| c01_c02::replay(c01_c02::Which::C02, v)),
+        ("C04", c04::check, c04::replay),
+        ("C05", c05::check, c05::replay),
+        ("C06", c06::check, c06::replay),
         ("C09", c09::check, c09::replay),
         ("C10", c10::check, c10::replay),
+        ("C18", c18::check, c18::replay),
+        ("C19", c19::check, c19::replay),
     ]
 }
 
